@@ -22,7 +22,9 @@ T = {
              "caught", "quick seed 1", "c20/uuid-changed/set/afterrename",
              "missed at first (the benign companion modification was a mail value, so the uniqueness plugin refused the renumbered entry for clashing with its old self); added shapes that rename the target in the same modify list and a purge+present replacement kind"),
  "C31-q31": ("C31", "a badlist entry with a non-ASCII cased letter, submitted with that letter in upper case, strong enough to reach the badlist step, through a credential update session", "caught", "quick seed 1", "c31/session-primary-badlisted-password-stored", None),
- "C40-q40": ("C40", "an LDAP compare whose DN names an entry that exists but is invisible to the bound identity", None, None, None, None),
+ "C40-q40": ("C40", "an LDAP compare whose DN names an entry that exists but is invisible to the bound identity",
+             "caught", "quick seed 1", "c40/compare-answers-for-entry-the-bind-cannot-find",
+             "missed at first (compares were driven and counted but only judged in the same-answers battery); a compare that answers true/false for a DN the same session's search cannot find is now a violation, and compares also name groups, applications and builtin entries, by name and by uuid"),
  "C03-n03": ("C03", "an entry with a sync external id is deleted or its external id is changed; only the externalid2uuid lookup index keeps the stale mapping",
              "caught", "quick seed 1", "c03/externalid-of-dead-entry-still-resolves, c03/externalid-of-no-entry-still-resolves",
              "missed at first (no entry carried an external id); added Op::ExtId (sync objects with external ids) and the external-id lookup-vs-scan comparison"),
